@@ -32,7 +32,7 @@ CHECKS = {
             "Explicit-state BFS over call histories of the element parameter API on five classes (1- and 2-parameter elements, +-inf box, container) to depth 3-4 (4-6) with valid and invalid calls in keyword and positional form; every transition is compared with a reference state machine; copy, deepcopy and re-parse equality/independence are checked in every state whose values lie within their limits; class defaults and fresh instances are re-observed after every call.",
             "Value menus are 5 points per parameter; multi-key calls are modelled as applied in order up to the first refused key.", "DESIGN.md section 4, C14"),
     "C15": ("model_checking", E2 + " (registry histories from a harness-made hard reset vs reference registry)",
-            "Explicit-state BFS over histories of register_element / remove_elements / reset / set_default_values / reset_default_parameter_values with seven user definitions (valid, duplicate symbol, inconsistent impedance, shadowing, prefix-sharing, invalid symbols) to depth 4 (7); after every transition get_elements in all flag combinations, every built-in default, 15 parse probes and instance defaults are compared with a reference registry; futures after reset are covered because search continues from the reset state and the canonical state includes the module-internal dicts.",
+            "Explicit-state BFS over histories of register_element / remove_elements / reset / set_default_values / reset_default_parameter_values with eight user definitions (valid, duplicate symbol, grossly and subtly inconsistent impedance, shadowing, prefix-sharing, invalid symbols) to depth 4 (7); after every transition get_elements in all flag combinations, every built-in default, 16 parse probes and instance defaults are compared with a reference registry; futures after reset are covered because search continues from the reset state and the canonical state includes the module-internal dicts.",
             "Every history is replayed from a hard reset done by the harness, not by the reset() under test; re-registering built-in class objects is outside the alphabet.", "DESIGN.md section 4, C15"),
 }
 
